@@ -122,3 +122,59 @@ def generate(seed):
     maxdepth = g.r.choice([1, 2, 2])
     root = g.machine(0, maxdepth, 'p')
     return {'name': 'G%d' % seed, 'events': list(EVENTS), 'flags': [], 'root': root}
+
+
+# ---------------------------------------------------------------------------------------------------------
+# flat machines for the front-end differential (C14): guard expressions drawn from the documented PlantUML
+# guard grammar - names, !, &&, ||, one level of parentheses - as expression trees; gen_puml prints them with
+# the parentheses C++ precedence needs, gen_cpp builds And_/Or_/Not_ (or member-function bodies) from the tree
+
+def guard_tree(r, natoms=5):
+    def lit():
+        a = r.randrange(natoms)
+        return ('not', a) if r.random() < 0.3 else a
+
+    def chain(op, items):
+        t = items[0]
+        for x in items[1:]:
+            # both associations print the same text; the tree is what the functor front-end evaluates
+            t = (op, t, x) if r.random() < 0.7 else (op, x, t) if False else (op, t, x)
+        return t
+
+    def group():
+        # parenthesised: an || chain (that is what needs parentheses under &&) of literals / && chains of literals
+        terms = []
+        for _ in range(r.choice([2, 2, 3])):
+            k = r.choice([1, 1, 2])
+            terms.append(chain('and', [lit() for _ in range(k)]))
+        return chain('or', terms)
+
+    # at most ONE parenthesised group per expression: the documented form ("!G1 && (G2 || G3)"); the front-end's
+    # parser looks for the first '(' and the first ')' only, expressions with two groups do not compile
+    nterms = r.choice([1, 1, 2, 2, 3])
+    shape = [r.choice([1, 2, 2, 3]) for _ in range(nterms)]
+    slots = [(ti, fi) for ti, k in enumerate(shape) if k > 1 for fi in range(k)]   # a group needs a sibling under &&
+    gslot = r.choice(slots) if slots and r.random() < 0.6 else None
+    terms = []
+    for ti, k in enumerate(shape):
+        fs = [group() if (ti, fi) == gslot else lit() for fi in range(k)]
+        terms.append(chain('and', fs))
+    return chain('or', terms)
+
+
+def generate_flat(seed):
+    r = random.Random(seed * 104729 + 7)
+    states = ['S0', 'S1', 'S2']
+    events = ['E0', 'E1', 'E2', 'E3']
+    table = []
+    for i in range(r.choice([13, 15, 16])):
+        src = r.choice(states)
+        ev = r.choice(events[:3])
+        tgt = None if r.random() < 0.15 else r.choice(states)
+        g = guard_tree(r) if r.random() < 0.85 else None
+        acts = ['a%d_%d' % (i, k) for k in range(r.choice([0, 1, 1, 2, 3]))]
+        if tgt is None and g is None and not acts:
+            acts = ['a%d_0' % i]
+        table.append(Row(src, ev, tgt, guard=g, actions=acts))
+    root = Machine('Root', ['S0'], {s: St() for s in states}, table)
+    return {'name': 'PG%d' % seed, 'events': events, 'flags': [], 'root': root}
